@@ -77,19 +77,25 @@ def streams(tier, rng, P, only=None, cases=None):
         cs = []
         n = 3000 if big else 500
         for i in range(n):
-            form = rng.choice(["rest", "note", "noten", "l", "bang_time", "bang_arg"])
+            form = rng.choice(["rest", "note", "noten", "l", "bang_time", "bang_arg", "after_res"])
             text, s, k = gen_expr(rng, True, layout=(form in ("rest", "note", "l") and rng.random() < 0.4))
             tb = rng.choice([48, 96, 120, 480, 960])
             dtext, ds, _ = gen_expr(rng, True)
             if form == "rest": src = "TimeBase(%d) l%s r%s n60" % (tb, dtext, text)
             elif form == "note": src = "TimeBase(%d) l%s c%s n60" % (tb, dtext, text)
             elif form == "noten": src = "TimeBase(%d) l%s n61%s n60" % (tb, dtext, ("," + text) if text else "")   # numbered note: its length slot
+            elif form == "after_res":
+                # a used-up length reservation (l.onNote / l.onCycle stopped by `l`) leaves the default length alone: an omitted length is again `l`
+                k = rng.choice([1, 2, 3])
+                res = [rng.choice([("!4", tb), ("!2", 2 * tb), ("!8", tb // 2), ("!1", 4 * tb)]) for _ in range(k)]
+                src = "TimeBase(%d) l%s l.onNote(%s) %s r%s n60" % (tb, dtext, ",".join(r_[0] for r_ in res), " ".join(rng.choice(["c", "d8", "e"]) for _ in range(k)), text)
+                off = sum(r_[1] for r_ in res)
             elif form == "l": src = "TimeBase(%d) l%s r n60" % (tb, text); ds = None
             elif form == "bang_time": src = "TimeBase(%d) TIME(!%s) n60" % (tb, text); ds = "bang"
             else: src = "TimeBase(%d) TIME=!%s; n60" % (tb, text); ds = "bang"
             if not text and form in ("bang_time", "bang_arg", "l"):
                 continue
-            cs.append(dict(req="run " + hx(src), src=src, show=src, syn=s, dsyn=ds, form=form, tb=tb, k=k, key="p%d" % i))
+            cs.append(dict(req="run " + hx(src), src=src, show=src, syn=s, dsyn=ds, form=form, tb=tb, k=k, key="p%d" % i, off=(off if form == "after_res" else 0)))
         return cs
     def pipe_model(c, st, f):
         # value of the default-length expression (evaluated with def = tb), then the expression
@@ -121,7 +127,7 @@ def streams(tier, rng, P, only=None, cases=None):
         if st != "ok": return None
         got = last_on_time(f)
         if got is None: return ("mismatch", "no sentinel note found")
-        want = int(m[0].split("out=")[1])
+        want = int(m[0].split("out=")[1]) + c.get("off", 0)
         if got != want:
             return ("violation", "note after %s of length expression starts at tick %d, documented value %d" % (c["form"], got, want))
         return None
